@@ -387,6 +387,60 @@ index_harness!(c09_index_str, 4, mk_str); // tier=thorough cap=3600
 index_harness!(c09_index_bytes, 4, mk_bytes);
 // @verif-end
 
+// ---------------------------------------------------------------------------
+// C16: Serde round trip of scalar payloads (group `serde` = base features + deserialization).
+// ---------------------------------------------------------------------------
+#[cfg(feature = "deserialization")]
+macro_rules! serde_roundtrip_harness {
+    ($name:ident, $t:ty) => {
+        #[kani::proof]
+        #[kani::unwind(6)]
+        #[kani::stub(alloc::fmt::format, crate::verif_common::format_stub)]
+        fn $name() {
+            let x: $t = kani::any();
+            let v = serialize::transform(&x);
+            let back = <$t as serde::Deserialize>::deserialize(&v);
+            match back {
+                Ok(y) => assert!(y == x),
+                Err(_) => assert!(false),
+            }
+            // and through an Option: Some(x) comes back as Some(x)
+            let o: Option<$t> = Some(x);
+            let vo = serialize::transform(&o);
+            let bo = <Option<$t> as serde::Deserialize>::deserialize(&vo);
+            match bo {
+                Ok(Some(y)) => assert!(y == x),
+                _ => assert!(false),
+            }
+            kani::cover!(true);
+            core::mem::forget((v, vo));
+        }
+    };
+}
+
+// @verif-block props=C16 tier=quick cap=900 group=serde doc=Value::from_serialize(x)_deserialised_back_into_the_same_type_yields_x_for_EVERY_value_of_the_listed_scalar_type,_directly_and_wrapped_in_Some
+#[cfg(feature = "deserialization")]
+serde_roundtrip_harness!(c16_roundtrip_bool, bool);
+#[cfg(feature = "deserialization")]
+serde_roundtrip_harness!(c16_roundtrip_u8, u8);
+#[cfg(feature = "deserialization")]
+serde_roundtrip_harness!(c16_roundtrip_i8, i8);
+#[cfg(feature = "deserialization")]
+serde_roundtrip_harness!(c16_roundtrip_u16, u16);
+#[cfg(feature = "deserialization")]
+serde_roundtrip_harness!(c16_roundtrip_i16, i16);
+#[cfg(feature = "deserialization")]
+serde_roundtrip_harness!(c16_roundtrip_u32, u32);
+#[cfg(feature = "deserialization")]
+serde_roundtrip_harness!(c16_roundtrip_i32, i32);
+#[cfg(feature = "deserialization")]
+serde_roundtrip_harness!(c16_roundtrip_u64, u64);
+#[cfg(feature = "deserialization")]
+serde_roundtrip_harness!(c16_roundtrip_i64, i64);
+#[cfg(feature = "deserialization")]
+serde_roundtrip_harness!(c16_roundtrip_char, char);
+// @verif-end
+
 #[cfg(test)]
 mod playback {
     use super::*;
